@@ -7,6 +7,11 @@ COMMON_NOTE = (
 )
 
 META: dict[str, dict[str, str]] = {
+    "C01": {
+        "level": "Decides the structural clauses: (a) the amplitude table handed to HelicityModel receives keys derived from the intensity's summation domain (inter-procedural def-use with parameter-bound summaries, depth 3) - a table keyed by transitions alone cannot cover the product of per-state pools; (b) every symbol family constructed at several sites of helicity/kinematics (47 sites measured) agrees in kind and assumptions, single producers stay single; (c) on every path of formulate (paths enumerated) a mass stored as parameter is deleted from / cannot be in the kinematic variables; builder-created parameters are registered at creation. Which symbols custom builders introduce, and clause (d), are not decided.",
+        "note": "SymPy symbol identity = name + assumptions; create_expressions defines all invariant-mass symbols." + COMMON_NOTE,
+        "technique": "static analysis: inter-procedural provenance of dictionary keys, symbol-construction family comparison, path enumeration with paired store/delete typestate",
+    },
     "C02": {
         "level": "Decides (a) the argument roles of the Wigner-D and both Clebsch-Gordan factors against the formula in the property statement (term extraction with attribute paths as atoms, linear forms normalised) and (b) a must-use rule over the fold chain: every transition / symmetrisation graph / node reaches its accumulator unconditionally and accumulators are folded whole (sum over transitions, product over nodes, |coherent sum|^2, coefficient and prefactor multiply the product). Numerical equality, components and symmetrisation multiplicity are not decided.",
         "note": "Argument order of sympy's Rotation.D and CG; an edit that skips provably vanishing terms would be reported by R-FOLD (none exists)." + COMMON_NOTE,
